@@ -561,6 +561,7 @@ def _run_b(o: Outcome, tier: str, nd: Path) -> None:
         r = t.result()
         o.add_tlc("Gen_ParserFns_sites" + (f"[{i}]" if len(site_runs) > 1 else ""), r)
         judge_sites(o, t.part, same, r)
+        t.res = r = None      # (thorough: several hundred thousand cases per run)
     stage("sites done")
     c = pcases[len(pcases) // 2]
     o.sample({"call": call_text(c["name"], c["argv"]), "title": TITLE_TEXT[c["title"]], "predicted": c["exp"]})
